@@ -199,6 +199,10 @@ GaugesZero ==
     THEN H(top, Root) + H(mid, Root) + H(base, Root) = 0
     ELSE TreeSegCount(top) + TreeSegCount(mid) + TreeSegCount(base) = 0
 
+\* segmentStack.hasMergeOperations(): a stack that still holds merge operands is not
+\* cached as stackClean (the lower level below it already contains those operands).
+TreeHasMrg(t) == \E p \in Paths : t[p].has /\ \E i \in 1..Len(t[p].segs) : \E k \in Keys : t[p].segs[i][k].o = "mrg"
+
 TreeEmpty(t) == \A p \in Paths : t[p].has => t[p].segs = <<>>    \* segmentStack.isEmpty()
 
 -----------------------------------------------------------------------------
@@ -262,7 +266,8 @@ TopAfter(b) ==
 Expect ==
     [ref |-> ref', gz |-> GaugesZero', st |-> Obs(store'), up |-> upto'.store, nb |-> Len(refs') - 1,
      h |-> <<Hn(top'), Hn(mid'), Hn(base'), Hn(clean')>>,
-     snaps |-> [i \in 1..MaxSnaps |-> snaps'[i]], dg |-> [k \in Keys |-> DirectGet(k)']]
+     snaps |-> [i \in 1..MaxSnaps |-> snaps'[i]], dg |-> [k \in Keys |-> DirectGet(k)'],
+     so |-> (TreeSegCount(top') + TreeSegCount(mid') + TreeSegCount(base') = 0)]
 
 Log(act, arg) == hist' = Append(hist, [act |-> act, arg |-> arg, exp |-> Expect])
 
@@ -399,7 +404,7 @@ PersisterFail ==        \* 71-79, LowerLevelUpdate failed: OnError, retry
 PersisterSwap ==        \* 86-106
     /\ pPc = "updated"
     /\ ll' = [nil |-> FALSE, c |-> store]
-    /\ clean' = IF CachePersisted THEN base ELSE NilSec
+    /\ clean' = IF CachePersisted /\ (Dev("CleanKeepsMergeOps") \/ ~TreeHasMrg(base.t)) THEN base ELSE NilSec
     /\ base' = NilSec
     /\ cached' = [cached EXCEPT !.on = FALSE]
     /\ pPc' = "idle"
